@@ -1,6 +1,7 @@
 /- C04: ties to the source text.  Built and audited together with Props/C04.lean by check.py, but in a module of its own, so that a
    changed textual fact breaks the obligations of the properties that own it and not those of every module that imports their lemmas. -/
 import CosetProofs.Ties.ContextRouting
+import CosetProofs.Ties.Budget.Mac
 namespace Coset.Props.C04
 
 /-! ### ties to the source text (regenerated on every run, compared in the kernel with the transcribed tree) -/
@@ -8,5 +9,10 @@ namespace Coset.Props.C04
 theorem tie_context_routing : Coset.Gen.contextRouting = Coset.Pinned.contextRouting := Coset.Ties.context_routing
 
 #print axioms tie_context_routing
+
+/-- decision budget of `src/mac/mod.rs`: no branch, comparison or integer literal beyond the transcribed tree's (a needle no stream reaches still adds one). -/
+theorem tie_budget_mac : Coset.Ties.budgetCovered "mac" Coset.Gen.decisionBudget Coset.Pinned.decisionBudget = true := Coset.Ties.budget_mac
+
+#print axioms tie_budget_mac
 
 end Coset.Props.C04
